@@ -404,12 +404,13 @@ theorem run_inv (strict : Bool) (s : State) (ops : List Op) (hi : FInv strict s)
 /-- what the (strict) invariant says about the window the peer holds -/
 theorem finv_window (s : State) (hi : FInv true s) :
     s.g.adv ≤ 2147483647 ∧ 0 ≤ s.g.adv
-    ∧ (s.f.pd = 0 → s.g.adv + ((s.f.limit / 4 : Nat) : Int) ≥ (s.f.limit : Int) ∧ (s.f.limit = 0 ∨ s.g.adv > 0)) := by
+    ∧ (s.f.pd = 0 → (s.g.adv ≥ (s.f.limit : Int) ∨ s.g.adv + ((s.f.limit / 4 : Nat) : Int) > (s.f.limit : Int))
+        ∧ (s.f.limit = 0 ∨ s.g.adv > 0)) := by
   obtain ⟨ha, hc, hled, hpd, hdl, hpu, hlm, hdm, hsm, hst, hnn, hinf⟩ := hi
   have hs := hst rfl
   refine ⟨by omega, by omega, ?_⟩
   intro hpd0
-  refine ⟨by omega, ?_⟩
+  refine ⟨by rcases hpu with h | h <;> first | (left; omega) | (right; omega), ?_⟩
   by_cases hz : s.f.limit = 0
   · exact Or.inl hz
   · right; omega
